@@ -4,5 +4,9 @@ CHECKS = {
    technique='bounded-exhaustive input enumeration on the real scanner/parser/composer (both back-ends) with watchdog',
    text='every string <=4 (quick; <=5 thorough) over a 29-symbol indicator alphabet, every byte string <=4 over 25 encoding-critical bytes, all escapes x hex tails, directive/tag piece sequences, all 1-edits of small corpus files and nesting families are run through scan/parse/compose_all on both back-ends; any non-YAMLError exception, worker death, hang or out-of-range mark is a violation. Exhaustive inside those bounds, nothing sampled.',
    note='small-scope hypothesis for inputs outside the alphabets/bounds; LibYAML binary as built from yaml/_yaml.c (no Cython to regenerate it); per-case hang limit 20 s'),
+ 'C09': dict(engine='vf-engine', level='model_checking',
+   technique='explicit-state BFS over the real Parser driven by a stub token source (all token sequences to depth 7/10, canonical-state dedup) + bounded-exhaustive text enumeration against pushdown grammar acceptors and an independent line/column counter',
+   text='Part B is explicit-state model checking of the implementation itself: the real yaml.parser.Parser is the transition system, the environment (token source) is owned by the explorer, every token sequence over 22 token shapes up to the depth bound is covered modulo a canonical control state, and on every transition the event prefix must stay inside the event grammar, consumed tokens inside the token grammar, marks must be token marks in order, failures must be ParserError. Part A runs the real scanner+parser on every string <=4/5 over 29 symbols and on corpus 1-edits and checks grammar, mark range/monotonicity, line/column (independent counter) and text slices.',
+   note='canonical state = (Parser.state, states, len(marks), tag_handles, yaml_version after last completed event; pending tokens; event-acceptor stack): sound because Parser branches on nothing else; LibYAML side checked for range/monotonicity/grammar only; scan-only inputs are held to stream brackets and BLOCK-END underflow only (bracket balance is the parser\'s job)'),
 }
 NOT_APPLICABLE = {pid: 'check not built yet (work in progress, see DESIGN.md section 3)' for pid in ALL if pid not in CHECKS}
